@@ -73,6 +73,8 @@ class V:
         elif k in ("string", "pattern", "openvocab"):
             if not isinstance(v, str):
                 self.add("wrong-json-kind", path, "string expected, got %s" % type(v).__name__)
+            elif path and path[-1] == "relationship_type" and not re.match(r"\A[a-z0-9-]*\Z", v):
+                self.add("relationship-type-charset", path, "relationship_type %r is not limited to a-z, 0-9 and hyphen" % (v,))
         elif k == "int":
             if isinstance(v, bool) or not isinstance(v, int):
                 return self.add("wrong-json-kind", path, "integer expected, got %r" % (v,))
